@@ -17,7 +17,7 @@ MANIFEST = dict(
     text="(E1) Bounded symbolic model checking of the real retry loops through the real clients: attempts n (symbolic, 0..3 quick / 0..4 thorough), one symbolic outcome selector per attempt for n+2 attempts "
          "over {success, listed code, unlisted code, batch-level listed error, listed exception, subclass of listed, unlisted exception}, symbolic error codes (the solver decides membership in the configured set); "
          "the backoff used in E1 yields pairwise distinct concrete delays so that their order is observable; differential oracle against a 15-line reference interpreter of the statement: number of sends, exact list of sleep arguments, identity of the returned response / re-raised exception; "
-         "single / batch / notification x client-wide / per-request / disabled strategy x sync / async. "
+         "single / batch / notification x client-wide / per-request / disabled strategy x sync / async; also as the SECOND request of a client whose first request was retried once (budget and backoff are per request). "
          "(E2) the Periodic / Exponential / Fibonacci generator bodies are translated from the current source AST into z3 real arithmetic for attempts 0..6 and z3 must refute 'k-th delay != closed form' for all real parameters (cvc5 cross-check in the thorough tier).",
     ref='5 C09, 1.3',
     note="Clock replaced by a recorder (S6). Floats are reals in E2 (IEEE rounding, overflow and C pow are not modelled). Attempts bounded as stated; jitter is an arbitrary real constant per call in E2 and 0 / a symbolic int in E1.",
